@@ -30,6 +30,8 @@ def run(rep, tier):
     from . import c05, c08
     common.guarded(rep, "C04.6", c05.c05_5, rep, ix, "C04.6")
     common.guarded(rep, "C08.5", c08.c08_5, rep, ix)
+    from . import c15
+    common.guarded(rep, "C15.2", c15.c15_2, rep, ix)       # a variable named like a parameter is still a variable
     c05.aliasing_lint(rep, ix)
     # the instantiated program is a deep copy (shared with C13)
     from . import c13
